@@ -2,7 +2,9 @@
 """Mutation self-test of C04: applies each property-breaking (M*, S*) or behaviour-preserving (R*)
 change to a scratch worktree of /repo and runs ./check C04 against it.
 usage (inside a private copy of /verif): python3 corpus/C04/mutants.py [name ...]
-M*/S* must print VIOLATION with a replay, R* must stay silent."""
+M*/S* must print VIOLATION with a replay, R* must stay silent - except the three in TIE_ONLY, which
+leave the behaviour alone but leave what the source tie (Props/C04.lean, namespace Tie) can follow:
+they are reported as a broken tie theorem with `no-failing-input-found` and no failing case."""
 import sys, subprocess, os, json, re
 V=os.path.dirname(os.path.dirname(os.path.dirname(os.path.abspath(__file__))))
 MUT='/tmp/c04-mutants-wt'
@@ -143,7 +145,18 @@ mutants = {
 	}
 	return true''')],
  'R3-cache-by-raw-certificate': [(VG,LEAFPARSE,cache('leafCert.Raw'))],
+ 'R4-reword-and-flip': [(VG,'''			if identityValue == "" {
+				return fmt.Errorf("trust policy statement %q has trusted identity %q without an identity value", policyName, identity)
+			}''','''			if "" == identityValue {
+				return fmt.Errorf("policy %q: identity %q has no value", policyName, identity)
+			}''')],
 }
+# behaviour-preserving, but outside what the translated-source tie can follow:
+#  R1 `len(s) == 0` on a string (the translator has no types: GoLite.len is for lists),
+#  R2 the early `len(dn1) > len(dn2)` exit is only equivalent for maps with unique keys, the tie is
+#     stated for every association list,
+#  R3 package-level state is outside the translated (pure) subset.
+TIE_ONLY = {'R1-message-and-order', 'R2-subset-refactored', 'R3-cache-by-raw-certificate'}
 names = sys.argv[1:] or list(mutants)
 subprocess.run(['git','-C','/repo','worktree','remove','--force',MUT],capture_output=True)
 subprocess.run(['git','-C','/repo','worktree','add','-q',MUT,'HEAD'],check=True)
@@ -170,7 +183,8 @@ try:
             m=re.search(r'replay=(\S+)',viol[0]); rp=json.load(open(m.group(1)))
             if rp.get('kind')=='holds-false':
                 detail='failed=%s ids=%s leaf=%r plugin=%s impl_pass=%s'%(rp['failed_clauses'],[i['raw'] for i in rp['input']['identities']],rp['input']['chain'][0]['text'],rp['input']['plugin'],rp['impl_obs']['pass'])
-        want='silent' if name.startswith('R') else 'replay'
+        want='replay'
+        if name.startswith('R'): want='no-failing-input' if name in TIE_ONLY else 'silent'
         if kind!=want: bad.append(name)
         print('==',name,'|',kind,('OK' if kind==want else 'UNEXPECTED'),'|',out[-1][-120:] if out else '')
         if detail: print('    ',detail[:300])
